@@ -10,6 +10,9 @@ NOTES = {
  "C16-B": "first run: missed by C16 (only SortedBuffer was tied); caught after `searchrun` drives the real Trees::search_best",
  "C17-A": "first run: missed; caught after refusal cases that share the header page were added",
  "C18-B": "data race (plain read of counters that other threads CAS): outside the claimed, address-range half of C18; no executable Gallina model exhibits it (Miri/TSan would)",
+ "C04-C": "second round (concurrency-only changes in the upper layer): drain's atomic swap split into load + store",
+ "C15-C": "second round: first run reported a step mismatch only; caught with a schedule after the offline-vs-reserve scenarios were added",
+ "C15-D": "second round: first run reported a step mismatch only; caught with a schedule after the set_start-vs-drain-offline scenario was added",
  "C21-A": "first run: the never-returning call overflowed the worker stack and was reported without an input; now reported with the frozen schedule as soon as the proven budget is exceeded",
  "C21-B": "needs the whole-allocator machine M2 in freeze mode (added)",
 }
@@ -44,7 +47,7 @@ configuration); "(mismatch only)" marks a `no-failing-input-found` report.
 
 %d of %d seeded changes are reported by the check of the property they were written against, each with a concrete
 failing input. The remaining one (C18-B) is a data race, which lies in the half of C18 this technique cannot express
-(see C18 in 11.3). Seven of them needed the machinery to be strengthened first (notes above, and 11.6).
+(see C18 in 11.3). Nine of them needed the machinery to be strengthened first (notes above, and 11.6).
 """ % (sum(1 for r in rows if "**none**" not in r), len(rows))
 p = os.path.join(R, "DESIGN.md")
 s = open(p).read()
